@@ -597,3 +597,4 @@ def run(ck):
 #  c26-mutable-unlinked-after-any-cancel          -> lease-crawler-raises (2nd cancel on a deleted file)  CAUGHT
 #  c26-override-ignored                           -> deleted-with-unexpired-lease, expired-share-kept     CAUGHT
 #  seeded/C26-2 (corrupt-share try/except around the whole per-share loop)  -> expired-share-kept (healthy share listed after a damaged one)  CAUGHT
+#  seeded/C26-6 (client.py: single share type passed as a str, substring test)    -> deleted-although-sharetype-not-enabled (server built from tahoe.cfg)  CAUGHT
